@@ -1103,7 +1103,8 @@ func (p *parser) extractArgs(raw []byte) []*arg {
 				if bytes.Equal(a.val, ddquote) {
 					a.val = a.val[:0]
 				}
-				a.global = GetGlobal(byteconv.B2S(a.val)) != nil
+				// A quoted (or numeric) literal is a literal, also when its text is the name of a global.
+				a.global = !a.static && GetGlobal(byteconv.B2S(a.val)) != nil
 				r = append(r, &a)
 			}
 			if len(a) > 0 && a[len(a)-1] == '}' {
